@@ -1,3 +1,67 @@
 import Usual.Common
-/-! Model driver for C13 (stub: not built yet). -/
-def main : IO Unit := IO.println "stub"
+import Usual.C13.PgQuote
+import Usual.C13.PgLex
+import Usual.C13.PgArray
+/-! Model driver for C13: one op per line, see harness/C13/h.c for the op language.
+    `lit <hex|null> <n>` · `id <hex> <n>` · `fq <hex> <n>` · `kw <hex>` · `arr <hex>`
+    (`…old` variants run the model of the unrepaired code; used by replay notes only). -/
+open Usual Usual.C13
+
+def toNats (l : List UInt8) : List Nat := l.map (·.toNat)
+def ofNats (l : List Nat) : List UInt8 := l.map UInt8.ofNat
+
+/-- parse a hex argument that must not contain a NUL byte -/
+def argBytes (w : String) : Option Bytes :=
+  match parseHex w with
+  | some l => let n := toNats l; if n.contains 0 then none else some n
+  | none => none
+
+def showQuote (r : Bool × Dst) : String :=
+  let obs :=
+    if r.1 then
+      if terminated r.2.buf then "1 " ++ toHex (ofNats (cstr r.2.buf)) else "1 unterminated"
+    else "0"
+  obs ++ " ## " ++ toHex (ofNats r.2.buf)
+
+def showElem : Option Bytes → String
+  | none => "N"
+  | some s => "s:" ++ toHex (ofNats s)
+
+def showArr (r : Res (List (Option Bytes)) × Log) : String :=
+  match r.1 with
+  | .oof => "model-out-of-fuel"
+  | .fail => "null"
+  | .ok l => String.intercalate " " (("list " ++ toString l.length) :: l.map showElem)
+
+def step (_ : Unit) (line : String) : Unit × String :=
+  let out :=
+    match words line with
+    | ["#case"] => "#case"
+    | ["lit", "null", n] =>
+      match n.toNat? with
+      | some n => showQuote (quoteLiteral none n)
+      | none => "bad-op"
+    | ["lit", h, n] =>
+      match argBytes h, n.toNat? with
+      | some s, some n => showQuote (quoteLiteral (some s) n)
+      | _, _ => "bad-op"
+    | ["id", h, n] =>
+      match argBytes h, n.toNat? with
+      | some s, some n => showQuote (quoteIdent s n)
+      | _, _ => "bad-op"
+    | ["fq", h, n] =>
+      match argBytes h, n.toNat? with
+      | some s, some n => showQuote (quoteFqident s n)
+      | _, _ => "bad-op"
+    | ["kw", h] =>
+      match argBytes h with
+      | some s => if isReserved s then "1" else "0"
+      | none => "bad-op"
+    | ["arr", h] =>
+      match argBytes h with
+      | some s => showArr (parseArray (s ++ [0]))
+      | none => "bad-op"
+    | _ => "bad-op"
+  ((), out)
+
+def main : IO Unit := runDriver () step
